@@ -157,8 +157,7 @@ namespace Givaro
         for(j=-_pmone/2; j<_pmone/2; j++)
             _tab_subone[j] = _tab_addone[j+_pmone/2];
 
-        numRefs = new int;
-        (*numRefs) = 1;
+        numRefs = new std::atomic<int>(1);
     }
 
     inline Modular<Log16>::Modular(const Modular<Log16>& F) :
@@ -190,8 +189,7 @@ namespace Givaro
 
 
         if (this->numRefs) {
-            (*(this->numRefs))--;
-            if ((*(this->numRefs))==0) {
+            if (--(*(this->numRefs)) == 0) {
                 delete [] _tab_value2rep;
                 delete [] _tab_rep2value;
                 delete [] _tab_mul;
@@ -220,8 +218,7 @@ namespace Givaro
 
     inline Modular<Log16>::~Modular()
     {
-        (*numRefs)--;
-        if (*numRefs == 0) {
+        if (--(*numRefs) == 0) {
             delete [] _tab_value2rep;
             delete [] _tab_rep2value;
             delete [] _tab_mul;
